@@ -19,7 +19,8 @@ tree and writes lean/Vita/C06/GenEvo.lean, plain data over the types of Vita/C06
         family_competition/alps incl. try_add_to_layer / try_move_up_layer, basic_alps_es::
         after_generation, std_es::stop_condition): every assignment, non-const local, call
         statement and return in source order with the conditions (if / else / for / while) it
-        is nested in.  Conditions are BX terms: &&, ||, !, comparisons with the operands as
+        is nested in; the same for the three `tune_parameters` (search, src_search, basic_ga_search;
+        there const locals are snapshots and are kept as `decl` effects).  Conditions are BX terms: &&, ||, !, comparisons with the operands as
         canonical source text (const and reference locals replaced by their initialiser unless
         it draws from the PRNG, `this->` and parentheses dropped), everything else an opaque atom.
 
@@ -51,8 +52,16 @@ STRATEGY_FNS = [
     ("stdStopSrc", "vita::std_es::stop_condition", "stop_condition"),
 ]
 
+# the three tune_parameters: const locals are snapshots there (`const environment constrained(prob_.env)`
+# is the user's request BEFORE the assignments below it), so only references are substituted
+TUNE_FNS = [
+    ("tuneBaseSrc", "vita::search::tune_parameters", "tune_parameters"),
+    ("tuneSrcSrc", "vita::src_search::tune_parameters", "tune_parameters"),
+    ("tuneGaSrc", "vita::basic_ga_search::tune_parameters", "tune_parameters"),
+]
+
 WRAP = {"ExprWithCleanups", "MaterializeTemporaryExpr", "CXXBindTemporaryExpr", "ConstantExpr",
-        "ImplicitCastExpr", "ParenExpr", "SubstNonTypeTemplateParmExpr"}
+        "ImplicitCastExpr", "ParenExpr", "SubstNonTypeTemplateParmExpr", "CXXStdInitializerListExpr"}
 CMP = {"<": "lt", "<=": "le", ">": "gt", ">=": "ge", "==": "eq", "!=": "ne"}
 # a const local initialised by a draw is a point in the PRNG stream, not a name for an expression:
 # it stays a `decl` effect (order of the draws visible) instead of being substituted
@@ -70,6 +79,14 @@ def peel(n):
     return n
 
 
+def is_log_macro(n):
+    """`vitaINFO << …` & co. expand to `if (log::lX == log::lDEBUG) ; else if (lX < reporting_level) ; else …`:
+    an if whose CONDITION compares log levels"""
+    ks = X.kids(n)
+    return n.get("kind") == "IfStmt" and bool(ks) and bool(X.find_all(
+        ks[0], lambda x: x.get("kind") == "DeclRefExpr" and "log::level" in x.get("type", {}).get("qualType", "")))
+
+
 def clean_type(t):
     t = re.sub(r"\b(class|struct|typename)\s+", "", t)
     t = t.replace("vita::", "").replace("std::", "")
@@ -79,9 +96,10 @@ def clean_type(t):
 class Fn:
     """Printer / flattener for one function body."""
 
-    def __init__(self, what):
+    def __init__(self, what, inline_consts=True):
         self.what = what
         self.inline = {}      # VarDecl id -> initialiser node (const / reference locals)
+        self.inline_consts = inline_consts
         self.effects = []
 
     # ---------------------------------------------------------------- expressions as text
@@ -158,6 +176,10 @@ class Fn:
             return clean_type(n.get("type", {}).get("qualType", "?")) + "(" + self.args(ks) + ")"
         if k == "LambdaExpr":
             return "lambda"
+        if k == "CXXTypeidExpr":
+            if ks:
+                return "typeid(" + self.txt(ks[0]) + ")"
+            return "typeid(" + clean_type(n.get("typeArg", n.get("adjustedTypeArg", {})).get("qualType", "?")) + ")"
         if k == "ParenListExpr":
             return "(" + self.args(ks) + ")"
         raise Refuse("%s: expression kind %s not handled" % (self.what, k))
@@ -199,7 +221,8 @@ class Fn:
             init = [c for c in X.kids(v) if c.get("kind") not in ("FullComment",)]
             if len(init) > 1:
                 raise Refuse("%s: local %s with %d initialisers" % (self.what, v.get("name"), len(init)))
-            if init and (t.startswith("const ") or t.rstrip().endswith("&")) and not t.rstrip().endswith("]") \
+            isref = t.rstrip().endswith("&")
+            if init and (isref or (t.startswith("const ") and self.inline_consts)) and not t.rstrip().endswith("]") \
                     and "static" != v.get("storageClass") and not DRAWS.search(self.txt(init[0])):
                 self.inline[v.get("id")] = init[0]
             else:
@@ -246,6 +269,8 @@ class Fn:
             self.decl(n, path)
         elif k == "NullStmt":
             pass
+        elif k == "IfStmt" and is_log_macro(n):
+            pass                                          # vitaINFO / vitaDEBUG … : log output
         elif k == "IfStmt":
             if n.get("hasInit") or n.get("hasVar") or n.get("isConstexpr"):
                 raise Refuse("%s: if with init / condition variable / constexpr" % self.what)
@@ -322,11 +347,11 @@ def body(n):
     return [c for c in X.kids(n) if c.get("kind") == "CompoundStmt"][0]
 
 
-def strategy_fn(key, filt, name):
+def strategy_fn(key, filt, name, inline_consts=True):
     defs = definition(X.ast_dump(TU, filt), name, filt)
     if len(defs) != 1:
         raise Refuse("%s: %d definitions found" % (filt, len(defs)))
-    f = Fn(filt)
+    f = Fn(filt, inline_consts)
     f.stmt(body(defs[0]), [])
     return key, f.effects
 
@@ -414,8 +439,7 @@ class RunSkel:
         return True
 
     def is_logging(self, n):
-        return bool(X.find_all(n, lambda x: x.get("kind") == "DeclRefExpr" and
-                               x.get("referencedDecl", {}).get("name") == "reporting_level"))
+        return is_log_macro(n)
 
     def toks(self, stmts, where):
         out = []
@@ -458,7 +482,8 @@ class RunSkel:
                     self.res["loopInit"] = ["setGen %s" % g.effects[0][3]]
                     self.res["genLoopCond"] = f.bx(cond)
                     h = Fn(f.what)
-                    h.expr_stmt(inc, [])
+                    if inc.get("kind"):
+                        h.expr_stmt(inc, [])
                     self.res["loopIncr"] = [self.summary_tok(e) for e in h.effects]
                     bt = self.toks(X.kids(bd), "gen")
                     if bt.count("STEPLOOP") != 1:
@@ -558,7 +583,7 @@ def run_skeleton():
 def extract():
     res = {}
     with cf.ThreadPoolExecutor(4) as ex:
-        futs = [ex.submit(strategy_fn, *t) for t in STRATEGY_FNS]
+        futs = [ex.submit(strategy_fn, *t) for t in STRATEGY_FNS] + [ex.submit(strategy_fn, *t, False) for t in TUNE_FNS]
         fs, fr = ex.submit(summary_tables), ex.submit(run_skeleton)
         res.update(fs.result())
         res["run"] = fr.result()
